@@ -251,7 +251,7 @@ def run_case_transport(case, cl=None):
     connection (serial double or loopback TCP) as the reply to a statement:
     after write() has returned, the readings of that reply must be there."""
     import time
-    from vf.firmware import Firmware, TcpFront, patched_serial
+    from vf.firmware import Firmware, TcpFront, patched_serial, wait_handshake_drained
     from vf.props.c16 import run_with_timeout, _quiet
     from gscrib.writers import SerialWriter, SocketWriter
     cl = set() if cl is None else cl
@@ -288,15 +288,7 @@ def run_case_transport(case, cl=None):
             r = run_with_timeout(w.connect, 12.0)
             if r[0] != "ok":
                 raise HarnessError(f"connect() against the simulator: {r!r}")
-            t0, quiet = time.time(), None
-            while time.time() - t0 < 5:       # let the handshake replies drain
-                if fw.pending() == 0:
-                    quiet = quiet or time.time()
-                    if time.time() - quiet > 0.06:
-                        break
-                else:
-                    quiet = None
-                time.sleep(0.004)
+            wait_handshake_drained(fw)       # let the handshake replies drain
             for letter, exp in boot_truth.items():
                 got = w.get_parameter(letter)
                 if got != exp:
